@@ -312,6 +312,9 @@ def run(chk):
         from . import c02
         b = P.impl_method("emit_core::props::Props", "emit::macro_hooks::__PrivateMacroProps<'a, N>", "get")
         return c02.macro_get(P, b)
+    if not getattr(chk, "_overlay", None):
+        from . import c02 as _c02
+        _c02.parked_outcome_rule(chk, P, "C19.R4:parked-outcome-kept", lambda b: b.crate in ("emit_core", "emit") and "::tests::" not in b.key)
     chk.ob("C19.R3:MacroProps-get", "lookup in a macro-built collection skips None entries exactly like enumeration (an optional None contributes no property and hides nothing)", macro_props_get)
 
     # ---- R4 forwarding ---------------------------------------------------------------------------------------------------------
